@@ -3,10 +3,11 @@
    model  = the importer model run on the items (the records Go's reader delivered)
    spec   = evaluated on the binary's output by the observer (it needs `knut print`), which
             appends " | print=... | rows=..." to the observation; here that is turned into
-            the verdict (as in drv_c13a.ml).  For interactivebrokers the statement-level
-            specification (Spec/ImpSpecIB.v, theorem C13_interactivebrokers_stdout) is evaluated
-            as well: a statement the generator calls well-formed must satisfy ibs_wf, and the
-            binary's stdout must be ibs_statement_output of the records. *)
+            the verdict (as in drv_c13a.ml).  The statement-level specification
+            (Spec/ImpSpecIB.v, Spec/ImpStmtB.v; theorems C13_<importer>_stdout) is evaluated as
+            well: a statement the generator calls well-formed must satisfy ibs_wf resp.
+            <importer>_statement_wf, and the binary's stdout must be <importer>_statement_output
+            of the records. *)
 open Drv_util
 open Drv_journal
 open Drv_c13a
@@ -50,29 +51,51 @@ let run_b (imp : string) (inp : string) (obs : string) : string * string =
         | _ -> failwith ("unknown importer " ^ imp)) in
   let (base, pr, rows) = split_observed obs in
   let cls = match String.index_opt base ' ' with Some i -> String.sub base 0 i | None -> base in
-  (* us.interactivebrokers: the executable statement-level specification on the binary's stdout *)
+  (* the executable statement-level specification (Spec/ImpSpecIB.v, Spec/ImpStmtB.v) on the binary's stdout *)
   let statement_spec () =
-    if imp <> "interactivebrokers" then "ok"
-    else
-      let acc k = match K.account_flag (str_of_string (match flag k with Some s -> s | None -> "")) with
-        | K.AAcc x -> Some x | _ -> None in
-      let recs = List.fold_right (fun it acc -> match it, acc with
-        | K.CRec r, Some l -> Some (r :: l) | _, _ -> None) (decode_items items) (Some []) in
-      match acc "acct", acc "div", acc "int", acc "tax", acc "fee", acc "trading", recs with
-      | Some a, Some d, Some i, Some w, Some f, Some t, Some rs ->
-        (match K.ibs_statement_output a d i w f t rs with
-         | None -> "FAIL:ibs_wf: the statement is outside the hypothesis of C13_interactivebrokers_faithful"
-         | Some out ->
-           if "OK " ^ esc (string_of_str out) = base then "ok"
-           else "FAIL:ibs_statement_output: stdout is not the journal of the statement's items")
-      | _ -> "FAIL:ibs_wf: account flags or records of a well-formed case do not decode" in
+    let acc k = match K.account_flag (str_of_string (match flag k with Some s -> s | None -> "")) with
+      | K.AAcc x -> Some x | _ -> None in
+    let recs = records_of (decode_items items) in
+    let undecoded = "FAIL:" ^ imp ^ "_statement_wf: account flags or records of a well-formed case do not decode" in
+    match imp, recs with
+    | "interactivebrokers", Some rs ->
+      (match acc "acct", acc "div", acc "int", acc "tax", acc "fee", acc "trading" with
+       | Some a, Some d, Some i, Some w, Some f, Some t ->
+         (match K.ibs_statement_output a d i w f t rs with
+          | None -> "FAIL:ibs_wf: the statement is outside the hypothesis of C13_interactivebrokers_faithful"
+          | Some out ->
+            if "OK " ^ esc (string_of_str out) = base then "ok"
+            else "FAIL:ibs_statement_output: stdout is not the journal of the statement's items")
+       | _ -> "FAIL:ibs_wf: account flags or records of a well-formed case do not decode")
+    | "revolut2", Some rs ->
+      (match acc "acct", acc "fee" with
+       | Some a, Some f -> statement_verdict imp base (K.r2_statement_output a f rs)
+       | _ -> undecoded)
+    | "revolut", Some rs ->
+      (match acc "acct" with
+       | Some a -> statement_verdict imp base (K.rv_statement_output a rs)
+       | _ -> undecoded)
+    | "wise", Some rs ->
+      (match acc "acct", acc "fee", acc "trading" with
+       | Some a, Some f, Some t -> statement_verdict imp base (K.ws_statement_output wise_repaired a f t rs)
+       | _ -> undecoded)
+    | "swissquote", Some rs ->
+      (match acc "acct", acc "div", acc "int", acc "tax", acc "fee", acc "trading" with
+       | Some a, Some d, Some i, Some w, Some f, Some t -> statement_verdict imp base (K.sqs_statement_output a d i w f t rs)
+       | _ -> undecoded)
+    | _ -> undecoded in
   let spec =
     if kind = "wf" then
       if cls <> "OK" then "FAIL:well-formed statement not imported: " ^ clip 60 base
-      else if pr <> "ok" && rows <> "ok" then "FAIL:print=" ^ pr ^ "; rows=" ^ rows
-      else if pr <> "ok" then "FAIL:print=" ^ pr
-      else if rows <> "ok" then "FAIL:rows=" ^ rows
-      else statement_spec ()
+      else
+        (* the statement-level verdict is evaluated whatever the observer's verdicts say (a known finding of the
+           row reader, e.g. cumulus' payment rows, must not hide a wrong journal) *)
+        let st = statement_spec () in
+        let also = if st = "ok" then "" else "; " ^ String.sub st 5 (String.length st - 5) in
+        if pr <> "ok" && rows <> "ok" then "FAIL:print=" ^ pr ^ "; rows=" ^ rows ^ also
+        else if pr <> "ok" then "FAIL:print=" ^ pr ^ also
+        else if rows <> "ok" then "FAIL:rows=" ^ rows ^ also
+        else st
     else "ok" (* a damaged statement or flag: outside C13; model and binary are still compared *) in
   let model_line = if model = "PANIC" && cls = "PANIC" then base else model in
   (model_line ^ " | print=" ^ pr ^ " | rows=" ^ rows, spec)
